@@ -287,6 +287,9 @@ Build ==
             ELSE IF e.res.c = "Ok"
             THEN BuildOkDefects(pre, post, e.args.n_trees, cap, caps1 = {cap})
                  \cup ObsDefects(e.obs, post)
+                 \* C06, literally: immediately after a successful build the reader opens and no build is demanded
+                 \cup (IF e.obs.ok /\ e.obs.open # "Ok" THEN {<<"C06", "reader_gives_" \o e.obs.open \o "_right_after_a_successful_build">>} ELSE {})
+                 \cup (IF e.obs.ok /\ e.obs.need_build THEN {<<"C06", "build_demanded_right_after_a_successful_build">>} ELSE {})
                  \cup (IF e.sides /\ post.meta # NoMeta /\ ~RoutedToSelf(nodesMs, post.meta.roots, LAMBDA p, x : SideLogged(pos, p, x))
                        THEN {<<"C04", "item_on_the_wrong_side_of_a_decided_plane">>} ELSE {})
                  \cup (IF faulted /\ e.polls > e.args.cancel_at + 1 THEN {<<"C10", "success_after_cancellation_was_seen_twice">>} ELSE {})
@@ -315,7 +318,7 @@ SearchEv ==
          nodesMs == JNodesMs(e.st.nodes)
          bad == CommonDefects(e) \cup Unchanged(e, pre, post, "C05")
                 \cup SearchDefects(e.q, post, nodesMs, LAMBDA p, x : SideLogged(pos, p, x))
-     IN /\ Report("VIOL", e, IF Faulted(e) THEN {} ELSE bad)
+     IN /\ Report("VIOL", e, bad)
         \* (the traversal is re-run by TLC for every recorded query: small histories only, like the phase conformance)
         /\ Report("DRIFT", e, IF post.meta = NoMeta \/ ~e.q.sides \/ Cardinality(DOMAIN post.nodes) > 80 THEN {}
                                ELSE SearchDrift(e.q, post.meta.roots, Live(post), post.nodes))
@@ -391,12 +394,12 @@ Hang ==
   /\ UNCHANGED <<cur, committed, caps, ccaps, mapfull>>
 
 \* the process running the code under test was killed by a signal raised from inside it (stack overflow,
-\* segmentation fault, abort) during operation k of this history; the harness ran the other histories again
+\* segmentation fault, abort; code 101 = a panic the driver does not catch) during operation k of this history; the harness ran the other histories again
 \* and put this event in place of the history.  "*" = counts for whichever property's driver observed it.
 Crash ==
   /\ IsEv("Crash")
   /\ Report("VIOL", [h |-> Rec[l].h, k |-> Rec[l].k, ev |-> "Crash"],
-            {<<"*", "process_killed_by_signal_" \o ToString(Rec[l].sig) \o "_during_" \o Rec[l].op>>})
+            {<<"*", "process_died_code_" \o ToString(Rec[l].sig) \o "_during_" \o Rec[l].op>>})
   /\ l' = l + 1
   /\ UNCHANGED <<cur, committed, caps, ccaps, mapfull>>
 
